@@ -153,6 +153,11 @@ func newOPT(c *Cloner, udpSize uint16, doBit bool) (opt *dns.OPT) {
 
 	opt.Hdr.Name = "."
 	opt.Hdr.Rrtype = dns.TypeOPT
+
+	// Reset the extended RCODE, the version, and the flags, since a record from
+	// the pool still has the ones of the message it was previously used in.
+	opt.Hdr.Ttl = 0
+
 	opt.SetUDPSize(udpSize)
 	opt.SetDo(doBit)
 
